@@ -85,19 +85,19 @@ Print Assumptions C13_sched_is_run.
    C13_over_limit.  For every limit L and every history of arrivals and handler completions on a connection:
    the atomic counter equals the number of running handlers and never exceeds L; a query arriving while the
    counter is n with n+1 > L is answered REFUSED in that very step and leaves the state (counter included)
-   unchanged — it is neither dropped nor counted permanently; below the limit it is admitted; and for every
+   unchanged — it is neither dropped nor counted permanently; below the limit it is accepted; and for every
    query, arrivals = refusals + answers + still running (nothing is dropped, nothing answered twice). *)
 Theorem C13_over_limit : forall (L : nat) (evs : list infl_ev) (st : infl_state) (outs : list infl_out),
   infl_run L infl_init evs = Some (st, outs) ->
   (infl_n st = length (infl_fl st) /\ infl_n st <= L) /\
   (forall q, L < infl_n st + 1 -> infl_step L st (InflArrive q) = Some (st, [InflRefused q])) /\
-  (forall q, infl_n st + 1 <= L -> infl_step L st (InflArrive q) = Some (mkInfl (S (infl_n st)) (q :: infl_fl st), [InflAdmitted q])) /\
+  (forall q, infl_n st + 1 <= L -> infl_step L st (InflArrive q) = Some (mkInfl (S (infl_n st)) (q :: infl_fl st), [InflAccepted q])) /\
   (forall q, n_arrive q evs = n_refused q outs + n_answer q outs + count_nat q (infl_fl st)).
 Proof.
   intros L evs st outs H. split; [|split; [|split]].
   - exact (crun_inv L evs infl_init st outs (cinit_inv L) H).
   - intros q. apply over_limit_refused.
-  - intros q. apply within_limit_admitted.
+  - intros q. apply within_limit_accepted.
   - intros q. exact (crun_account L q evs infl_init st outs H).
 Qed.
 Print Assumptions C13_over_limit.
@@ -154,10 +154,10 @@ Example C13_example_contiguous :
   parse_stream (two_writes_interleaved [7]%N [8; 9]%N) <> Some [[8; 9]; [7]]%N.
 Proof. vm_compute. repeat split; discriminate. Qed.
 
-(* limit 2, five pipelined queries while no handler finishes: two admitted, three REFUSED, then the two answers;
+(* limit 2, five pipelined queries while no handler finishes: two accepted, three REFUSED, then the two answers;
    at the end the counter is back to 0 *)
 Example C13_example_over_limit :
   burst_refused 2 5 = [false; false; true; true; true] /\
   infl_run 2 infl_init [InflArrive 0; InflArrive 1; InflArrive 2; InflFinish 0; InflArrive 3; InflArrive 4; InflFinish 1; InflFinish 3] =
-    Some (mkInfl 0 [], [InflAdmitted 0; InflAdmitted 1; InflRefused 2; InflAnswer 0; InflAdmitted 3; InflRefused 4; InflAnswer 1; InflAnswer 3]).
+    Some (mkInfl 0 [], [InflAccepted 0; InflAccepted 1; InflRefused 2; InflAnswer 0; InflAccepted 3; InflRefused 4; InflAnswer 1; InflAnswer 3]).
 Proof. vm_compute. auto. Qed.
